@@ -18,6 +18,10 @@ import Ibx.Lemmas.FileRefine
   Since the fix of F-10 (`for mb.hasID(id) { id = generateID(..) }` in newMessage, T1 fact `fileIdCollisionCheck`) the
   id of a message that is STILL in the mailbox is never drawn again, for any generator (`skipExisting_not_present`);
   what remains under the hypothesis is only "the id of a DELETED message is never drawn again" (F-10b).
+  The generator itself (clock, counter mod 10000, interference, the loop without fuel, both variants of `hasID`) is
+  modelled in Ibx/Model/FileIds.lean; Props/C07Ids.lean (a module of this property) proves `new_id_not_listed`,
+  termination of the loop, and `generated_delivery_refines_spec`, which replaces the freshness assumption for LISTED
+  ids in the refinement by a theorem about the code's loop.
 -/
 namespace Ibx.Props.C10
 open Ibx Ibx.Spec.Store Ibx.Lemmas.FileRefine
